@@ -4,6 +4,7 @@ package twooffive
 import (
 	"errors"
 	"fmt"
+	"unicode/utf8"
 
 	"github.com/boombuler/barcode"
 	"github.com/boombuler/barcode/utils"
@@ -84,7 +85,7 @@ func EncodeWithColor(content string, interleaved bool, color barcode.ColorScheme
 		return nil, errors.New("content is empty")
 	}
 
-	if interleaved && len(content)%2 == 1 {
+	if interleaved && utf8.RuneCountInString(content)%2 == 1 {
 		return nil, errors.New("can only encode even number of digits in interleaved mode")
 	}
 
